@@ -30,6 +30,8 @@ fn insert_flat(variants: &mut BTreeSet<Value>, value: Value) {
 pub fn merger(rhs: Value, lhs: Value) -> Result<Value, Error> {
     #[cfg(feature = "verif_hooks")]
     crate::verif_hooks::bump(2);
+    #[cfg(feature = "verif_hooks")]
+    let _frame = crate::verif_hooks::enter(2);
     match (rhs, lhs) {
         // Null + Null = Null
         (Value::Null, Value::Null) => Ok(Value::Null),
